@@ -31,7 +31,7 @@ fn rnd(x: &mut u64) -> u64 {
 }
 
 fn call(k: u64, pb: &ProgressBar, mp: &Option<MultiProgress>) -> i64 {
-    match k % 12 {
+    match k % 13 {
         0 | 1 => { pb.update(|s| { let p = s.pos(); s.set_pos(p.wrapping_add(1)); }); 0 }
         2 => { pb.tick(); 0 }
         3 => { pb.inc(2); 2 }
@@ -42,6 +42,7 @@ fn call(k: u64, pb: &ProgressBar, mp: &Option<MultiProgress>) -> i64 {
         8 => { drop(pb.clone()); 0 }
         9 => { pb.dec(1); -1 }
         10 => { if let Some(mp) = mp { let _ = mp.println("l"); } 0 }
+        12 => { if let Some(mp) = mp { mp.remove(pb); let _ = mp.add(pb.clone()); } 0 }
         _ => { pb.suspend(|| ()); 0 }
     }
 }
